@@ -781,6 +781,20 @@ def read_buffer_bounded_by(f, read_bb, bound_locals):
     return False, "the buffer is not bounded by what is left to read"
 
 
+def helper_stop(facts, file):
+    """inlining boundary of a model that reads one file: functions of the crate in other files stay calls -- except free functions (no
+    `impl`, no trait) of the crate, which are plumbing that several files may share (`util::discard(reader, scratch, limit)`)"""
+    def stop(d):
+        g = facts.fns[d]
+        if not g.rec.get("local") or g.file == file:
+            return False
+        root = facts.fns.get(re.sub(r"(::\{closure#\d+\})+$", "", d))
+        if root is not None and root.rec.get("def_kind") == "Fn" and root.rec.get("impl_self_adt") is None and root.rec.get("impl_trait") is None and "test" not in root.id.split("::")[0]:
+            return False
+        return True
+    return stop
+
+
 def find_slot_paths(facts, adt, type_rx, depth=0):
     """field paths (tuples of field names) inside `adt` (through nested local structs) to a field whose type matches type_rx"""
     out = []
@@ -918,6 +932,13 @@ def abstractly_visited(facts):
                 note(f, absint.explore(f, 0, st))
         for m in (chain.ctor, chain.next):
             pass
+    # the response printer, from any response and any arguments (its panics are decided by how it computed its own intermediate values)
+    try:
+        import response_rules as RSP
+        M = RSP.resp_model(facts)
+        note(M.f, absint.explore(M.f, 0, None, max_paths=50000, max_visits=2))
+    except CheckerError:
+        pass
     facts._abs_visited = (visited, covered - cut_fns)
     return facts._abs_visited
 
@@ -1138,9 +1159,78 @@ def printers(facts):
     return out
 
 
+FLUSH_RX = r"std::io::Write::flush$| as std::io::Write>::flush$"
+
+
+def flushing_printers(facts):
+    """the printing entry points that also flush: on every path on which they return after having printed (successfully), they have called
+    Write::flush on the writer they were given"""
+    if hasattr(facts, "_flushing_printers"):
+        return facts._flushing_printers
+    import absint, inline, symex
+    import queue_rules as Q
+    ps = printers(facts)
+    W = ("sym", "the-writer-given")
+    out = set()
+    for k in ps:
+        g = facts.fns[k]
+        inner = [d for d in ps if d != k]
+        if not any(call_name(t) in inner for bb, t in g.calls()):
+            continue
+        f = inline.inlined(facts, k, stop=lambda d: facts.fns[d].rec.get("local") and (facts.fns[d].file != g.file or d in inner), extern_ok=Q.std_small)
+        st = symex.Sym(f)
+        wi = [i for i in range(2, f.argc + 1) if re.search(r"^(&('\w+ )?mut )?W$|dyn std::io::Write", f.local_ty(i))]
+        if not wi:
+            continue
+        st.write_key((wi[0], "*") if f.local_ty(wi[0]).startswith("&") else (wi[0],), W)
+        ok, n = True, 0
+        for p in absint.explore(f, 0, st, on_call=absint.io_model, max_paths=400):
+            if p.end[0] != "return":
+                continue
+            evs = p.events
+            pr = [i for i, e in enumerate(evs) if e[1] == "call" and e[2] in inner]
+            if not pr:
+                continue
+            failed = any(c and c[0] == "variant" and c[2] in ("Err", "Break") and absint.mentions_call(c[3], evs[pr[0]][4]) for bb, c in p.conds)
+            if failed:
+                continue
+            n += 1
+            fl = [i for i, e in enumerate(evs) if i > pr[0] and e[1] == "call" and ((e[6] or "") == "std::io::Write::flush" or re.search(FLUSH_RX, e[2]))
+                  and any(absint.contains(absint.deep(p.state, a), W) for a in e[3])]
+            if not fl:
+                ok = False
+        if ok and n:
+            out.add(k)
+    facts._flushing_printers = out
+    return out
+
+
 def printer_rx(facts):
     ps = printers(facts)
     return "(" + "|".join(re.escape(p) for p in ps) + ")$" if ps else r"response::Response::<R>::raw_print$"
+
+
+def eval_constructor(facts, call):
+    """the aggregate a small constructor function of the crate returns for these arguments (`Context::bare(version, flag)`), when it
+    returns the same shape on every path; None otherwise"""
+    import absint, inline, symex
+    import queue_rules as Q
+    g = facts.fns.get(call[4] if len(call) > 4 and call[4] in facts.fns else call[1])
+    if g is None or not g.rec.get("local") or len(g.blocks) > 12:
+        return None
+    try:
+        f = inline.inlined(facts, g.id, stop=lambda d: facts.fns[d].rec.get("local") and facts.fns[d].file != g.file, extern_ok=Q.std_small)
+    except Exception:
+        return None
+    st = symex.Sym(f)
+    for i, a in enumerate(call[2]):
+        if i + 1 > f.argc:
+            break
+        st.write_key((i + 1,), ("constref", a[1]) if a and a[0] == "ref*" else a)
+    rets = [absint.deep(p.state, p.ret()) for p in absint.explore(f, 0, st, max_paths=20) if p.end[0] == "return"]
+    if len(rets) == 1 and rets[0] and rets[0][0] == "agg":
+        return rets[0]
+    return None
 
 
 def print_call_args(facts, state, e):
@@ -1167,7 +1257,12 @@ def print_call_args(facts, state, e):
         if i == 0:
             continue
         ty = callee.local_ty(i + 1)
-        a = facts.adts.get(re.sub(r"<.*$", "", ty.lstrip("&")))
+        a = facts.adts.get(re.sub(r"<.*$", "", re.sub(r"^&('\w+ )?(mut )?", "", ty)))
+        if a is not None and a["kind"] == "Struct" and not ty.startswith("std::"):
+            while v and v[0] == "ref*":
+                v = v[1]
+            if v and v[0] == "call":
+                v = eval_constructor(facts, v) or v
         if a is not None and a["kind"] == "Struct" and not ty.startswith("std::") and v and v[0] == "agg":
             for fl in a["variants"][0]["fields"]:
                 put(fl["ty"], v[3].get(fl["name"], ("unknown",)))
